@@ -224,5 +224,25 @@ CHECKS["C08"] = {
     "technique": "Lean 4 theorem (real-analysis skeleton, hypothesis = estimator validity) + closed-form oracle + differential testing "
                  "vs reference implementation",
 }
+CHECKS["C03"] = {
+    "level": "proof",
+    "text": "Kernel-checked for ALL answers of the geometric predicates (locate_point, get_reduced_simplex, orientation, "
+            "_simplex_is_almost_flat, point_in_cicumcircle and the work-list pop order are inputs of the model), all hints a caller "
+            "may pass and all insertion sequences: vertex_to_simplices and simplices agree and every simplex is dim+1 distinct "
+            "in-range vertices in every reachable state; add_point reports exactly the simplices it removed and created (interior "
+            "and hull-extension path); every ValueError branch leaves the triangulation unchanged; no KeyError/IndexError; plus the "
+            "algebraic core of 'the pieces tile the simplex' (signed and unsigned volume split, dimension 2 and 3). The geometric "
+            "half (facets in <= 2 simplices, every vertex used, volumes add up to the hull volume, Delaunay) is a visible statement "
+            "tiles_hull_statement that is NOT proved (only its index clause: tiles_hull_partial); it is audited exactly on the real "
+            "object after every insertion, where it fails on degenerate/anisotropic inputs (known findings). Tie: exact lock-step of "
+            "simplices, vertex_to_simplices and add_point's return value with every predicate call recorded and consumed.",
+    "design_ref": "DESIGN.md section 6 C03",
+    "note": "Trusted: Lean kernel, standard axioms, hand model Tri.lean tied by differential testing (dims 2-4; random / lattice / "
+            "centroid-midpoint / co-spherical / near-degenerate point sets; with and without hint; diagonal metrics up to ratio 100); "
+            "SciPy's initial Delaunay and, for the 3-D/4-D hull volume, ConvexHull facets accepted only after an exact check; the "
+            "tiling itself is tested exactly, not proved. Findings: relative eps of point_in_cicumcircle, holes left by skipped "
+            "slivers, cancellation in fast_2d_point_in_simplex (see known_findings.json).",
+    "technique": T,
+}
 _PENDING = "machinery for this property is not built yet in this commit (work in progress; see DESIGN.md section 9)"
 NOT_APPLICABLE = {f"C{i:02d}": _PENDING for i in range(1, 21) if f"C{i:02d}" not in CHECKS}
